@@ -166,6 +166,7 @@ func Run(cfg Config) (*Result, error) {
 			Uses:       map[*ast.Ident]types.Object{},
 			Defs:       map[*ast.Ident]types.Object{},
 			Selections: map[*ast.SelectorExpr]*types.Selection{},
+			Implicits:  map[ast.Node]types.Object{},
 		}
 		conf := types.Config{Importer: imp, Error: func(err error) {}}
 		tpkg, err := conf.Check(ip, fset, files, info)
@@ -351,12 +352,12 @@ func (r *fileRewriter) rewrite() error {
 	}
 
 	// fix imports that became unused
-	used := map[string]bool{}
+	used := map[types.Object]bool{}
 	ast.Inspect(f, func(n ast.Node) bool {
 		if se, ok := n.(*ast.SelectorExpr); ok {
 			if id, ok := se.X.(*ast.Ident); ok {
 				if pn, ok := r.info.Uses[id].(*types.PkgName); ok {
-					used[pn.Name()] = true
+					used[pn] = true
 				}
 			}
 		}
@@ -366,22 +367,16 @@ func (r *fileRewriter) rewrite() error {
 		if im.Name != nil && (im.Name.Name == "_" || im.Name.Name == ".") {
 			continue
 		}
-		name := ""
+		var obj types.Object
 		if im.Name != nil {
-			name = im.Name.Name
+			obj = r.info.Defs[im.Name]
 		} else {
-			p, _ := strconv.Unquote(im.Path.Value)
-			for _, obj := range r.info.Uses {
-				if pn, ok := obj.(*types.PkgName); ok && pn.Imported().Path() == p {
-					name = pn.Name()
-					break
-				}
-			}
-			if name == "" {
-				continue // never used even originally? leave it
-			}
+			obj = r.info.Implicits[im]
 		}
-		if !used[name] {
+		if obj == nil {
+			continue
+		}
+		if !used[obj] {
 			im.Name = ast.NewIdent("_")
 		}
 	}
